@@ -24,31 +24,31 @@ CLAIMS = {
   "technique": "Lean 4 proof over the collision-group model for all digest assignments + adversarial-digest correspondence",
  },
  "C06": {
-  "text": "Proved in Lean for a byte-exact model of the encoders (elements of every CBOR head width, references, type info, extra data, array data slabs root/non-root, array index slabs, large-value slabs): encoded length = reported size + extra data, minus exactly 16 bytes for an omitted empty sibling link; a decoded slab reports the size of the slab that produced the register; no uint16 truncation under the C05 invariant. The model's bytes are compared with EncodeSlab's bytes for every slab of every generated history. Partial: map slabs, inlined children and the shared extra-data section (the compact-map exception) are not in the byte-level model; for them only the model-free oracle len(Encode)=ByteSize runs.",
+  "text": "Proved in Lean for a byte-exact model of the encoders (elements of every CBOR head width, references, type info, extra data, array data slabs root/non-root, array index slabs, large-value slabs): encoded length = reported size + extra data, minus exactly 16 bytes for an omitted empty sibling link; a decoded slab reports the size of the slab that produced the register; no uint16 truncation under the C05 invariant. The model's bytes are compared with EncodeSlab's bytes for every slab of every generated history. The byte model also covers map data / index / collision-group slabs, general storables (wrappers, inlined arrays and maps at any depth), type-info references and compact maps: the length law is proved for all of them (enc_len_stor/_elements/_mdata/_mindex/_adata/_storableG; '<=' for the compact-map exception) and every ENC line of the stream is compared byte for byte. Bulk-built containers (batch stream) are included. Partial: the shared inlined-extra-data section's own length is compared by correspondence, not by a theorem.",
   "design_ref": "DESIGN.md 7/C06, 13",
   "note": "Trusted: Lean kernel; Encode.lean transcription (validated byte-for-byte); harness value codec. Hypotheses DataOK/MetaOK follow from C05.",
   "technique": "Lean 4 proof over a byte-exact encoder model + byte-for-byte correspondence with EncodeSlab",
  },
  "C07": {
-  "text": "Proved in Lean: decode(encode s) = s and re-encoding is a fixpoint for array data / index / large-value slabs; the three header queries on the raw bytes are truthful (root flag, has-pointers, size-limit) with no hypothesis on the slab; trailing bytes after a v1 data or index slab are rejected. Tie: every register of every history is decoded by both sides and compared; hand-crafted v0 forms decode to the same slab. Partial: maps / inlined children / compact maps not at byte level (oracle Encode(Decode(reg))==reg runs on everything).",
+  "text": "Proved in Lean: decode(encode s) = s and re-encoding is a fixpoint for array data / index / large-value slabs; the three header queries on the raw bytes are truthful (root flag, has-pointers, size-limit) with no hypothesis on the slab; trailing bytes after a v1 data or index slab are rejected. Tie: every register of every history is decoded by both sides and compared; hand-crafted v0 forms decode to the same slab. Also proved: exact round trip and re-encode fixpoint for map index slabs and map data / collision-group slabs (inline and external groups, last-level lists, wrappers; root / non-root). The nested stream additionally reads every container back from a brand-new storage and compares content and each container's own type info (type-info references among inlined siblings). Partial: the round trip of slabs WITH inlined children / the shared extra-data section / compact maps is checked by correspondence (model decode = Go decode, Go re-encode = register) on every register, not yet by a theorem.",
   "design_ref": "DESIGN.md 7/C07, 13",
   "note": "Trusted: as C06 plus Decode.lean transcription (validated on ~50k registers per run incl. malformed ones).",
   "technique": "Lean 4 round-trip proof over byte-exact encoder/decoder models + register-level correspondence",
  },
  "C19": {
-  "text": "Proved in Lean: the transcribed decoders (DecodeSlab dispatch, array data and index slabs in both versions, large-value slabs, extra data, slab IDs, the three header queries, and the harness's storable decoder) never reach a 'panic' outcome for ANY byte string and any slab ID - every Go slice expression, fixed-offset read and make() carries its bounds condition - terminate by structural recursion, and allocate at most the input length. Tie: outcome class equal to the real DecodeSlab on ~30000 mutated registers per run; the transcribed CBOR validator is compared with the library. Partial: map decoders and inlined-children decoders are exercised by the malformed stream under recover+watchdog only; panics inside the CBOR library / Go runtime are not modelled.",
+  "text": "Proved in Lean: the transcribed decoders (DecodeSlab dispatch, array data and index slabs in both versions, large-value slabs, extra data, slab IDs, the three header queries, and the harness's storable decoder) never reach a 'panic' outcome for ANY byte string and any slab ID - every Go slice expression, fixed-offset read and make() carries its bounds condition - terminate by structural recursion, and allocate at most the input length. Tie: outcome class equal to the real DecodeSlab on ~30000 mutated registers per run; the transcribed CBOR validator is compared with the library. decode_never_panics now covers ALL slab kinds (map data / index / collision groups, inlined arrays / maps / compact maps, type-info references, wrappers). The allocation bound is proved for the array / large-value decoders (alloc_linear_flat); for the map decoders it is enforced on the implementation by the allocation oracle of the malformed streams. Panics inside the CBOR library / Go runtime are not modelled. Re-encoding a slab decoded from a mutated register is outside the property (observation O1 in DESIGN.md 13.4).",
   "design_ref": "DESIGN.md 7/C19, 13",
   "note": "Trusted: Decode.lean transcription, CBOR contract model (validated against the library).",
   "technique": "Lean 4 totality / no-panic proof over a three-outcome decoder model + malformed-input differential runs",
  },
  "C09": {
-  "text": "Proved in Lean (arrays): the SlabStorage calls of insert/set/remove are a complete account of how the slab tree changed (changed or new slabs stored, departed slabs removed, nothing else touched), emptying an array removes every slab except the rewritten root, no slab is owned twice, allocated IDs are fresh; the graph-level characterisation of a healthy storage is C20's health_sound/complete. Maps, collision-group slabs and inline<->standalone transitions: tied by per-operation comparison of the net storage effect with the map/World models and checked on the implementation by the health check with the exact expected root count.",
+  "text": "Proved in Lean (arrays): the SlabStorage calls of insert/set/remove are a complete account of how the slab tree changed (changed or new slabs stored, departed slabs removed, nothing else touched), emptying an array removes every slab except the rewritten root, no slab is owned twice, allocated IDs are fresh; the graph-level characterisation of a healthy storage is C20's health_sound/complete. Maps: the same account for set / remove / popIterate including external collision-group slabs (C09Map.set/remove_effects_complete, pop_releases_all, allocated_ids_fresh, under distinct slab IDs MIdsOk, itself proved preserved). Inline<->standalone transitions and bulk pops through nested handles: tied by per-operation comparison of the net storage effect with the World model; on the implementation the health check runs with the exact expected root count and, at the end of every nested program, every container is disposed of with the deep-removal idiom and the storage must be empty.",
   "design_ref": "DESIGN.md 7/C09, 13",
-  "note": "Partial: map-level effects_complete is correspondence-only. The premise 'the caller disposes of returned values' is implemented by the harness (DSP).",
+  "note": "The premise 'the caller disposes of returned values' is implemented by the harness (DSP).",
   "technique": "Lean 4 proof of effect-log completeness by induction on tree depth + effect-log correspondence + storage health oracle",
  },
  "C10": {
-  "text": "Proved in Lean for the value-level World model (one current handle per container): a child is inline exactly when it is a single slab that fits the slot's budget after wrappers, the parent element carries the size of the child's current form, the parent slot is refreshed by the notification, value IDs are stable under all five operations and both transitions, a handed-back child is standalone, index shifts are order independent. Tie: ~20000 nested operations per run replayed on the model with nested structural dumps. The histories excluded by the hypothesis (two live handles to one container) violate the property on the real code: known findings F2/F2b, printed as KNOWN-FINDING.",
+  "text": "Proved in Lean for the value-level World model (one current handle per container): a child is inline exactly when it is a single slab that fits the slot's budget after wrappers, the parent element carries the size of the child's current form, the parent slot is refreshed by the notification, value IDs are stable under all five operations and both transitions, a handed-back child is standalone, index shifts are order independent; a handle obtained by lookup or mutable iteration gets exactly the closure the notification theorems assume (C10Get.*), reopening drops all closures. The model also covers PopIterate / SetType through nested handles (the two PopIterate defects this found are repaired: fixed: lines in known_findings.txt). Tie: ~20000 nested operations per run replayed on the model with nested structural dumps. The histories excluded by the hypothesis (two live handles to one container) violate the property on the real code: known findings F2/F2b, printed as KNOWN-FINDING.",
   "design_ref": "DESIGN.md 7/C10, 8, 13",
   "note": "Partial: persistence of child mutations composes with C03 by correspondence (commit+reload oracle), not by a Lean theorem; facts about Arr.set on reference elements are hypotheses (validated by correspondence).",
   "technique": "Lean 4 proof over a model of the parent-callback protocol + nested-history correspondence; known-finding signatures for dual handles",
@@ -66,7 +66,7 @@ CLAIMS = {
   "technique": "Lean 4 refinement proof (B+tree model -> List) by induction on tree depth + per-operation model/implementation correspondence",
  },
  "C05": {
-  "text": "Lean theorems prove that the array invariant ArrInv (every slab <= 1.5T, every non-root slab >= T/2, every element <= the inline limit, header copies / cumulative counts / sibling links exact, index root has >= 2 children, IDs fresh) holds initially and is preserved by every operation, for EVERY legal T; that a full slab holds >= 2 elements and two maximal elements fit; and that positional access and sequential traversal agree. Constants and derived limits are regenerated from source and compared exhaustively with the compiled package. Maps: invariant defined, model tied by correspondence and VerifyMap; preservation theorems belong to C02.",
+  "text": "Lean theorems prove that the array invariant ArrInv (every slab <= 1.5T, every non-root slab >= T/2, every element <= the inline limit, header copies / cumulative counts / sibling links exact, index root has >= 2 children, IDs fresh) holds initially and is preserved by every operation, for EVERY legal T; that a full slab holds >= 2 elements and two maximal elements fit; and that positional access and sequential traversal agree. Constants and derived limits are regenerated from source and compared exhaustively with the compiled package. Maps: the map invariant MapInv (sizes, bands, per-element inline limit, sorted unique first-level digests, index data = summary of the children, sibling chain, collision-group shape) holds initially and is preserved by set / remove / popIterate for EVERY legal T, every digest function and digest depth (map_inv_*), and the per-slab clauses of the property follow from it for every data and index slab (map_data_slabs_in_band, map_index_slab_wellformed, map_wellformed).",
   "design_ref": "DESIGN.md 7/C05, Appendix B",
   "note": "Trusted: Lean kernel; ArrayInv.lean; extractor (constants cross-checked against the compiled values for all 32513 thresholds).",
   "technique": "Lean 4 invariant proof parametric in the slab size (omega over regenerated constants) + exhaustive threshold comparison + dump correspondence",
